@@ -121,6 +121,15 @@ func (r *c05) Exec(op []string) string {
 		return r.obs(fmtPop(v, ok))
 	case "len":
 		return r.obs(strconv.Itoa(r.q.Len()))
+	case "each":
+		// Each with early stop: the callback says "stop" once k elements have been seen (k <= 1: after the first)
+		k := atoi(op[1])
+		var seen []int
+		r.q.Each(func(v int) bool { seen = append(seen, v); return len(seen) < k })
+		if len(seen) < r.q.Len() {
+			r.st.Note("each-stopped-early")
+		}
+		return r.obs(fmtInts(seen))
 	}
 	return "bad-op"
 }
@@ -218,8 +227,10 @@ func genC05(g *G) {
 				ops = append(ops, "front")
 			case k < 92:
 				ops = append(ops, fmt.Sprintf("peek %d", g.Intn(n+2)))
-			case k < 95:
+			case k < 94:
 				ops = append(ops, "len")
+			case k < 95:
+				ops = append(ops, fmt.Sprintf("each %d", g.Intn(n+3)))
 			default:
 				if mode == 2 && g.Chance(1, 2) {
 					m := 8 + g.Intn(20)
